@@ -234,6 +234,8 @@ func init() {
 			n := runNF(c, c.G, r, "NF", fnsOf(qm), c.REval)
 			r.RequireMin("NF accessor sites in the predicate machinery", n, 7)
 			runPureSet(c, r, qm, 5)
+			fa := runFILTERALL(c, r, "FILTERALL")
+			r.RequireMin("FILTERALL loops over the items in applyFilter", fa, 1)
 			lf := runLISTFLOW(c, r, "LISTFLOW")
 			r.RequireMin("LISTFLOW obligations in evalPredicate", lf, 2)
 			// a numeric predicate is floored, not truncated
@@ -288,6 +290,8 @@ func init() {
 		Run: func(c *Ctx, r *Result) {
 			runPRATT(c, r, "PRATT")
 			runPARENS(c, r, "PARENS")
+			bk := runBLOCKKEEP(c, r, "BLOCKKEEP")
+			r.RequireMin("BLOCKKEEP successful returns of (*BlockNode).optimize", bk, 1)
 			ws := runWSDEF(c, r, "WSDEF")
 			r.RequireMin("WSDEF definitions of whitespace in the lexer", ws, 1)
 			runRegistrationSwitch(c, r, "TAB")
@@ -333,7 +337,7 @@ func init() {
 		ID:          "C14",
 		Explanation: "Thin: decides structural necessary conditions of the object model. (GROUP) in groupItemsByKey every store into the key map uses a key that is a string by construction (a string literal's Value, or jtypes.AsString with its ok result tested) and follows a comma-ok lookup of the same key, lying on its absent edge or after the test that the entry found came from the same key/value pair — so a second pair producing an existing key reaches the duplicate-key error instead of overwriting or merging, and a non-string key the illegal-key error; (COVER) the object functions' loops over a struct's fields and over a key list run from the first to the last entry, step one, bounded by that container's own length ($keys, $each, $sift, $spread, $merge visit every member once); (W) evalObject, groupItemsByKey and the object built-ins write only memory of the evaluation and keep no state. NOT decided: the partition law itself (which items belong to which key), the value evaluation over a group, $merge precedence, $lookup = field selection — value-level.",
 		Rule:        commonRule,
-		Fixtures:    []string{"w"},
+		Fixtures:    []string{"w", "shape"},
 		Run: func(c *Ctx, r *Result) {
 			g := runGROUP(c, r, "GROUP")
 			r.RequireMin("GROUP stores into the key map", g, 3)
@@ -350,6 +354,8 @@ func init() {
 			}
 			cv := runCOVER(c, r, "COVER", cf, nil)
 			r.RequireMin("COVER traversal loops in the object machinery", cv, 8)
+			dd := runDEDUP(c, r, "DEDUP", libFuncsIn(c, c.REval))
+			r.Count("DEDUP test-and-set sites under Eval", dd)
 			runPureSet(c, r, c.machinery(r, []string{"!jsonata.evalObject", "jsonata.evalGroup", "jsonata.lookup"}, map[string]bool{"jsonata": true}, []string{"jsonata.eval"}), 3)
 			runPureFamily(c, r, []string{"jlib.Keys", "jlib.Each", "jlib.Sift", "jlib.Spread", "jlib.Merge"}, map[string]bool{"jlib": true}, 15)
 		},
@@ -437,6 +443,8 @@ func init() {
 			}
 			pi := runPERITEM(c, r, "PERITEM", sortParsers)
 			r.RequireMin("PERITEM fields of sort terms recorded in parser loops", pi, 2)
+			sv := runSORTVALID(c, r, "SORTVALID")
+			r.RequireMin("SORTVALID value returns of the callers of the sort-key validator", sv, 1)
 			st := runSORTTYPES(c, r, "SORTTYPES")
 			r.RequireMin("SORTTYPES obligations in buildSortInfo", st, 3)
 			// the sort machinery works only on state of the same evaluation: every write (and every
@@ -510,6 +518,8 @@ func init() {
 					cf = append(cf, f)
 				}
 			}
+			ha := runHOFARGS(c, r, "HOFARGS", cf)
+			r.RequireMin("HOFARGS callback argument lists (value, index, array)", ha, 2)
 			cv := runCOVER(c, r, "COVER", cf, map[string]bool{"jlib.Reverse": true})
 			r.RequireMin("COVER traversal loops in the array/hof/aggregate built-ins", cv, 12)
 		},
@@ -802,7 +812,7 @@ func init() {
 		ID:          "C09",
 		Explanation: "Decides the crash/hang classes that are visible in the shape of the code, over everything reachable from Eval in the module call graph: (NF) every kind-specific reflect accessor gets a provably resolved receiver (138 sites, interprocedural); (TAB) eval's type switch covers every node type the parser can emit and every operator-enum switch is exhaustive, so the 'unexpected node'/'unrecognised operator' panics are unreachable; (PANIC) every explicit panic under Eval is one of those or a listed exception; (LOOP) every loop under Eval has a recognised variant (range, counted towards an invariant bound, shrinking-suffix consumer, positive multiplicative scaling, or a reviewed entry) and every recursive SCC a reviewed structural descent; (GUARD) integer / and % have a dominating non-zero test, strconv.FormatInt bases are confined to [2,36], strings.Repeat counts are non-negative; (HASH) no interface-keyed map is indexed with a dynamically typed value; (IDX) every reflect.Value.Index gets an index proved within 0..Len-1; (BND) every native index and slice expression under Eval is in range: either the Go compiler's own prove pass removes its bounds check (asked with -d=ssa/check_bce on the current tree), or a difference-constraint proof over dominating comparisons, definitions and library post-conditions gives 0 <= low <= high <= len, or the unproved part is covered by a reviewed one-site invariant. (TA) every single-result type assertion is dominated by a reflect type test of the same value against a type variable whose initialiser denotes the asserted type, or asserts the success result of a function that only returns that type, or is a reviewed exception; (RO) the value of a struct field (Value.Field/FieldByName/FieldByIndex — possibly unexported, hence read-only for reflect) is only inspected until a CanInterface test, or the PkgPath test of the same field, has shown it usable, so function values and Go structs used as data cannot make reflect panic; (NILTYPE) no method is called on reflect.TypeOf(x) unless x is shown non-nil; (ZERO) a zero value is synthesised for a missing argument (reflect.Zero) only for optional parameter types, interface{} and reflect.Value, never for a named interface such as jtypes.Callable, whose nil value the built-ins would call; (ACYC) every store made through reflection into a data container (Value.Set/SetMapIndex) goes into a container allocated by the same activation or stores a scalar/zero Value, so Eval cannot make a value contain itself — the recursive walkers' descent arguments need finite depth. The transform's update store fails this and is a known finding. (KIND) every reflect.Value method with a kind or validity precondition (Len, Index, MapKeys, MapIndex, NumField, Field*, Float, Int, Bool, IsNil, Elem, Call, Type, Interface, CanInterface, Convert, Set, ...) gets a receiver whose possible kinds — computed interprocedurally over the module call graph in an own/resolved two-view lattice and refined by the dominating IsValid, == undefined, Kind() and jtypes-predicate tests — are all accepted by the method (interface/pointer kinds at the NF accessors being NF's obligation), or is a reviewed exception. NOT decided: nil interfaces used as values, reflect.Set on zero Values, stack depth, lt's own panic. (KIND, argument clause) the values handed to Value.Set, reflect.Append and reflect.AppendSlice are never the zero Value; (TA P3) an element of a local slice is asserted to type T only when every store into that slice boxes a T; (SORTTYPES) the mixed-type error of a sort term is decided from a per-term record kept over all items and only ever set, so lt never sees a number and a string. (OKUSE) the value of a comma-ok helper of the module whose failure path returns (nil, false) — jtypes.AsCallable and its like — is used only behind a test of its own ok result; a test of the sibling Is… predicate does not count, the two need not agree.",
 		Rule:        commonRule,
-		Fixtures:    []string{"nf", "guard", "hash", "tab", "loop", "bnd", "ta", "ro", "kind"},
+		Fixtures:    []string{"nf", "guard", "hash", "tab", "loop", "bnd", "ta", "ro", "kind", "shape"},
 		Run: func(c *Ctx, r *Result) {
 			n := runNF(c, c.G, r, "NF", srcFuncsIn(c.REval), c.REval)
 			r.RequireMin("NF accessor sites under Eval", n, 130)
@@ -829,6 +839,10 @@ func init() {
 			h := runHASH(c, r, "HASH", srcFuncsIn(c.REval), c.REval)
 			r.Count("HASH interface-keyed map accesses under Eval", h)
 			runBNDFor(c, r, "BND", c.REval, "Eval", 180, 50)
+			ed := runERRDROP(c, r, "ERRDROP", libFuncsIn(c, c.REval))
+			r.RequireMin("ERRDROP errors produced inside loops under Eval", ed, 20)
+			rt := runREFLTYPE(c, r, "REFLTYPE", libFuncsIn(c, c.REval))
+			r.RequireMin("REFLTYPE reflect.AppendSlice calls under Eval", rt, 1)
 			ou := runOKUSE(c, r, "OKUSE", libFuncsIn(c, c.REval))
 			r.RequireMin("OKUSE calls of comma-ok helpers with a nilable value", ou, 4)
 			ta := runTA(c, r, "TA", libFuncsIn(c, c.REval), c.REval)
@@ -1179,7 +1193,7 @@ func init() {
 		ID:          "C08",
 		Explanation: "Decides the panic/hang classes of Compile that are visible in the shape of the code, for every input string: (ERR) every error value that is returned, thrown to Parse's recover, or stored in jparse is nil, a *jparse.Error, lexer.err, or the result of another jparse function (inductively the same), every Error literal carries a declared non-zero ErrType (all of which have messages, TAB), Parse's deferred closure turns exactly the *Error panics into (nil, err), Compile hands Parse's error on with a nil expression and MustCompile panics exactly on err != nil; (LEX) abstract interpretation of the lexer over a finite domain (cursor position, width typestate, one known first rune per cell of the partition induced by the lexer's own constants and tables, unknown runes afterwards): no rewind by a stale width (the double backup behind Compile(\"!é\") and Compile(\"[1.䑁]\")), and every token returned by next other than EOF/error has consumed a rune, for every first rune (the empty-token hang behind function($x)<!>{$x}); (LOOP/REC) every loop under Compile has a recognised variant — parser loops consume a token or panic per cycle, lexer loops read a rune and leave at eof, accept predicates reject eof — and every recursive SCC a reviewed descent; (TAB/PANIC) each led is registered for exactly the tokens its switch handles, so every explicit 'unexpected ...' panic under Compile is unreachable. (BND) every native index and slice expression under Compile is in range: its bounds check is removed by the Go compiler's prove pass, or a difference-constraint proof gives 0 <= low <= high <= len, or the unproved part is covered by a reviewed one-site invariant (the lexer's cursor invariant being the one LEX maintains) — the class of Compile(\"function($x)<(>{$x}\"), which sliced with -1. NOT decided, and said so: stack depth on deeply nested input. (OPTALL) in every optimize method a child taken from the receiver as it was parsed is never stored into a node, appended to a node list or returned without having gone through optimize(): only optimised nodes are in the tree Compile returns, which is what keeps the interim node types away from eval.",
 		Rule:        commonRule,
-		Fixtures:    []string{"loop", "tab", "bnd", "ta"},
+		Fixtures:    []string{"loop", "tab", "bnd", "ta", "shape"},
 		Run: func(c *Ctx, r *Result) {
 			runERR(c, r, "ERR")
 			// Compile's outcome is a function of its input string: nothing under Compile writes
@@ -1201,6 +1215,8 @@ func init() {
 			tabProved := map[string]bool{"jparse.parseBoolean": true, "jparse.parseNumericOperator": true, "jparse.parseComparisonOperator": true, "jparse.parseBooleanOperator": true}
 			p := runPanics(c, r, "PANIC", c.RCompile, tabProved)
 			r.RequireMin("PANIC string panics under Compile", p, 4)
+			ed := runERRDROP(c, r, "ERRDROP", srcFuncsIn(c.RCompile))
+			r.RequireMin("ERRDROP errors produced inside loops under Compile", ed, 8)
 			oa := runOPTALL(c, r, "OPTALL")
 			r.RequireMin("OPTALL stores and returns of node values in the optimize methods", oa, 40)
 			runBNDFor(c, r, "BND", c.RCompile, "Compile", 40, 15)
